@@ -26,7 +26,8 @@ RULE = ('case = (configuration with journal on every voter, dump file on/off; st
 ASSUMPTIONS = ['process kill, not power loss', 'kills inside a step are placed at primitive storage writes (a kill between two non-writing instructions equals the kill at the next write)',
                'operator restarts a node on the same journal/dump paths with the same member list']
 
-EXTRA = [('kill', 2), ('restart', 8), ('killall', 1), ('killmid', 10), ('killcompact', 3), ('ghostfwd', 3)]
+EXTRA = [('kill', 2), ('restart', 8), ('killall', 1), ('killmid', 10), ('killcompact', 3)]       # table version 1 (saved replays)
+EXTRA2 = EXTRA + [('ghostfwd', 3)]
 
 
 class JSim(cluster.Sim):
@@ -361,7 +362,7 @@ def run_once(case, kill_plan):
     if no_compaction:
         sim.op_compact = lambda a, b, c: (sim.counters.__setitem__('compaction_excluded', sim.counters['compaction_excluded'] + 1), False)[1]
     try:
-        resolved = simprop.run_steps(sim, case, EXTRA)
+        resolved = simprop.run_steps(sim, case, EXTRA, EXTRA2)
         own = lambda: [v for v in sim.all_viol if v[0] in OWN and (OWN[v[0]] is None or v[1] in OWN[v[0]])]
         if not own() and not sim.viol:      # a monitor of another property stopped the case: state is tainted, no closing verdict
             # closing phase: everybody comes back, faults stop; state == fold and SUCCESS-acknowledged commands stay
